@@ -1030,6 +1030,51 @@ func (e *Env) evalCall(c *ast.CallExpr) (Val, error) {
 		}
 		e.v.D.declFun("zz_userptr", []string{"Ptr"}, "Bool")
 		return Val{mk("Bool", "zz_userptr", pt), boolT}, nil
+	case "isclo", "captured":
+		// isclo(f, "pkg.Func$1"): f is a closure of that function literal; captured(f, "pkg.Func$1", i): address of its i-th captured variable
+		f, err := e.eval(c.Args[0])
+		if err != nil {
+			return Val{}, err
+		}
+		lit, ok := c.Args[1].(*ast.BasicLit)
+		if !ok {
+			return Val{}, fmt.Errorf("%s: function name must be a string literal", name)
+		}
+		qn, _ := strconv.Unquote(lit.Value)
+		var target *ssa.Function
+		for k, fn := range e.v.P.Funcs {
+			i := strings.LastIndex(k, "::")
+			pk := k[:i]
+			if j := strings.LastIndex(pk, "/"); j >= 0 {
+				pk = pk[j+1:]
+			}
+			if pk+"."+k[i+2:] == qn {
+				target = fn
+			}
+		}
+		if target == nil {
+			return Val{}, fmt.Errorf("%s: unknown function %s", name, qn)
+		}
+		e.v.D.declFun("zz_cloid", []string{"Fn"}, "Int")
+		if name == "isclo" {
+			return Val{tEq(mk("Int", "zz_cloid", f.T), intLit(int64(cloID(target)))), boolT}, nil
+		}
+		idx, err := e.eval(c.Args[2])
+		if err != nil {
+			return Val{}, err
+		}
+		n, ok := isIntLit(idx.T)
+		if !ok || int(n) >= len(target.FreeVars) {
+			return Val{}, fmt.Errorf("captured: bad index")
+		}
+		cf := fmt.Sprintf("zz_capcell_%d", n)
+		e.v.D.declFun(cf, []string{"Fn"}, "Ptr")
+		cell := mk("Ptr", cf, f.T)
+		// captured variables live in their own cells: never inside a struct or a backing array
+		if !mentionsBound(cell) {
+			e.st.assume(tAnd(tNot(mk("Bool", "(_ is zz_fld)", cell)), tNot(mk("Bool", "(_ is zz_elem)", cell)), tNot(tEq(cell, tNilP))))
+		}
+		return Val{cell, target.FreeVars[n].Type()}, nil
 	case "fromcode":
 		a, err := e.eval(c.Args[0])
 		if err != nil {
@@ -1374,6 +1419,11 @@ func (e *Env) evalLocs(x ast.Expr) ([]modLoc, error) {
 			case "anyelems":
 				if sid, ok := c.Args[0].(*ast.Ident); ok {
 					return []modLoc{{kind: "anyelems", key: heapKeyForSort(sid.Name), sort: sid.Name}}, nil
+				}
+			case "anyinternal":
+				// anyinternal(Sort): every field of that sort inside objects of the module's own struct types
+				if sid, ok := c.Args[0].(*ast.Ident); ok {
+					return []modLoc{{kind: "anyinternal", key: heapKeyForSort(sid.Name), sort: sid.Name}}, nil
 				}
 			case "all":
 				p, err := e.eval(c.Args[0])
